@@ -429,13 +429,16 @@ func (e *c12Env) report(c *Case, xs []*c12Exec) {
 	left := e.leftover()
 	c.Op("tmpdir", fmt.Sprintf("leftover=%d", left))
 	c.Oracle(fmt.Sprintf("tmpdir leftover=%d", left))
-	distinct := map[string]bool{}
+	in := NewInterner()
+	var ids []int
 	for _, n := range all {
-		if n != "" {
-			distinct[n] = true
+		if n == "" {
+			ids = append(ids, 0) // a variable that was not set: all such count as one (repeated) name
+			continue
 		}
+		ids = append(ids, in.Id(n))
 	}
-	c.Oracle(fmt.Sprintf("unique names=%d distinct=%d", len(all), len(distinct)))
+	c.Oracle("unique ids=" + joinInts(ids))
 }
 
 // ---------------------------------------------------------------- generator
